@@ -20,7 +20,17 @@ Abstract input (small JSON):
                                        # before / between / after the probe names)
    'out_exists': bool,                 # the (empty) output directory exists before the merge
    'info': bool,                       # an explicit probe_info=[{'label': 'L<k>', 'serial': 100 + k}, ...] is passed
-   'chk_labels': bool}                 # observation option: the labels of probes.description.tsv are judged too
+   'chk_labels': bool,                 # observation option: the labels of probes.description.tsv are judged too
+   # the HISTORY of the Merger object / of the process (stage 6; all optional; the merged dataset must not depend on it):
+   'history': [[probe, ...], ...],     # earlier contents of the SAME probe directories (each stage: one probe per directory,
+                                       # same format as 'probes'): the directories are written with stage 0, merge() is called,
+                                       # they are re-written with stage 1, merge() is called again ... and finally re-written
+                                       # with 'probes' and merged: that last merge is the one observed (a pipeline that keeps
+                                       # its Merger around and merges again after a re-curation of the probes)
+   'hist_merger': 'reused' | 'fresh',  # every merge() on ONE Merger object (default) / a new Merger object per merge, in the
+                                       # same process, same arguments
+   'hist_out': 'keep' | 'clear'}       # the output directory is left as the earlier merge wrote it (default: the later merge
+                                       # overwrites its files) / emptied by the caller between the merges
 
 Only the spike side (C11) varies.  The channel/template side (C12's functions, which Merger.merge() runs
 unconditionally) is filled with fixed, deliberately harmless content: 2 channels per probe, int32 channel map and index
@@ -28,8 +38,10 @@ tables (so that `uint32 += int32` is never reached), probes of positive width, >
 `.squeeze()` drops no axis there), no whitening / similarity files.  Template i of probe k is non-zero on channel i % 2 only,
 with the values +-(i + 1 + 100 k): every template of every probe is a different waveform, so that the row of the merged
 templates.npy a merged spike points at identifies (probe, template) (clause 29 of C11/Corr.v)."""
+import copy
 import hashlib
 import os
+import shutil
 
 SPIKE_FILES = ('spike_times.npy', 'amplitudes.npy', 'spike_templates.npy', 'spike_clusters.npy')
 META_FILES = ('cluster_Amplitude.tsv', 'cluster_ContamPct.tsv', 'cluster_KSLabel.tsv')
@@ -106,6 +118,37 @@ def materialise(inp, root):
     if inp.get('out_exists'):
         os.makedirs(out)
     return dirs, out
+
+
+def prepare(inp, root, Merger):
+    """Everything up to (excluding) the observed merge: writes the directories, builds the Merger in the form the caller
+    passes its arguments, plays inp['history'] (earlier merges of earlier contents of the same directories, by the same
+    Merger object or by a fresh one per merge) and leaves inp['probes'] on disk.  Returns (merger, probe dirs, out dir)."""
+    stages = [st for st in inp.get('history', [])] + [inp['probes']]
+    names = probe_names(inp)
+    dirs, out = materialise(dict(inp, probes=stages[0]), root)
+    a_dirs, a_out = as_passed(inp, dirs, out)
+    pinfo = probe_info(inp)
+
+    def new():
+        if pinfo is None:
+            return Merger(a_dirs, a_out)
+        return Merger(a_dirs, a_out, probe_info=copy.deepcopy(pinfo))
+    mg = new()
+    for st in stages[1:]:
+        m = mg.merge()
+        del m
+        assert len(st) == len(names)
+        for k, (p, d) in enumerate(zip(st, dirs)):
+            shutil.rmtree(d)
+            write_probe(p, d, inp.get('rate', 100.0), k)
+        if inp.get('hist_out') == 'clear':
+            for fn in os.listdir(out):
+                q = os.path.join(out, fn)
+                shutil.rmtree(q) if os.path.isdir(q) and not os.path.islink(q) else os.remove(q)
+        if inp.get('hist_merger') == 'fresh':
+            mg = new()
+    return mg, dirs, out
 
 
 def probe_info(inp):
